@@ -143,6 +143,7 @@ var envEdits = []editDef{
 	{"extra-desc-urls", "extra-field", false}, {"extra-desc-data", "extra-field", false}, {"extra-desc-platform", "extra-field", false}, {"extra-desc-artifactType", "extra-field", false},
 	{"spell-target", "key-spelling", false}, {"spell-desc", "key-spelling", false},
 	{"dup-target-null-after", "duplicate", false}, {"dup-target-null-before", "duplicate", false},
+	{"extra-desc-unknown-then-dup-target-null-after", "duplicate", false},
 	{"dup-target-other-after", "duplicate", false}, {"dup-target-other-before", "duplicate", false},
 	{"dup-target-emptyobj-after", "duplicate", false}, {"dup-target-emptyobj-before", "duplicate", false},
 	{"dup-target-wrongtype-after", "duplicate", false}, {"dup-target-wrongtype-before", "duplicate", false},
@@ -272,6 +273,40 @@ var knownUnrequested = map[string]bool{"urls": true, "data": true, "platform": t
 
 // keySets returns the case-sensitive key sets at payload and descriptor level (generic decoding,
 // last duplicate wins), preferring envb.DecodeTarget.
+// effectiveDescKeys: the keys of the object that a decoder binding to the payload structure ends up
+// with as the target: the last member spelled targetArtifact (in any letter case) whose value is
+// not null - null leaves what an earlier member put there. nil when that value is not an object.
+func effectiveDescKeys(payload []byte) []string {
+	dec := json.NewDecoder(bytes.NewReader(payload))
+	if t, err := dec.Token(); err != nil || t != json.Delim('{') {
+		return nil
+	}
+	var eff json.RawMessage
+	for dec.More() {
+		kt, err := dec.Token()
+		if err != nil {
+			return nil
+		}
+		var raw json.RawMessage
+		if err := dec.Decode(&raw); err != nil {
+			return nil
+		}
+		if k, ok := kt.(string); ok && strings.EqualFold(k, "targetArtifact") && strings.TrimSpace(string(raw)) != "null" {
+			eff = raw
+		}
+	}
+	var d map[string]json.RawMessage
+	if eff == nil || json.Unmarshal(eff, &d) != nil {
+		return nil
+	}
+	var keys []string
+	for k := range d {
+		keys = append(keys, k)
+	}
+	sort.Strings(keys)
+	return keys
+}
+
 func keySets(payload []byte) (top, desc []string, err error) {
 	if t, e := envb.DecodeTarget(payload); e == nil {
 		return t.TopKeys, t.Keys, nil
@@ -388,6 +423,11 @@ func judge(c *Case, r *result) (string, string) {
 	for _, k := range desc {
 		if !payloadDescKeys[k] && !knownUnrequested[k] {
 			return "C18:unknown-field:" + site, fmt.Sprintf("signed descriptor carries the unknown field %q: %q", k, v.Payload)
+		}
+	}
+	for _, k := range effectiveDescKeys(v.Payload) {
+		if !payloadDescKeys[k] && !knownUnrequested[k] {
+			return "C18:unknown-field:" + site, fmt.Sprintf("the target object a verifier ends up with (the last one that is not null) carries the unknown field %q: %q", k, v.Payload)
 		}
 	}
 	return "", ""
